@@ -47,7 +47,8 @@ def integ_case(draw, tier):
     i0 = draw(st.integers(0, n - 2))
     i2 = draw(st.integers(i0 + 1, n - 1))
     i1 = draw(st.integers(i0, i2))
-    return {"w_nm": w, "grid": kind, "v1": rng.uniform(-2, 3, size=n), "v2": rng.uniform(-2, 3, size=n),
+    vs = draw(gen.scales())
+    return {"w_nm": w, "grid": kind, "v1": rng.uniform(-2, 3, size=n) * vs, "v2": rng.uniform(-2, 3, size=n) * vs,
             "a": draw(gen.finite(-3, 3)), "b": draw(gen.finite(-3, 3)), "idx": [i0, i1, i2],
             "unit": draw(st.sampled_from(UNITS)), "method": draw(st.sampled_from(["trapz", "simps"])),
             "bounds": draw(st.sampled_from(["none", "samples", "between"]))}
